@@ -4,6 +4,7 @@
 -/
 import CimbaModel.HashHeap.RefineAbs
 import CimbaModel.HashHeap.GuardOrder
+import CimbaModel.HashHeap.RefinePattern
 
 namespace CimbaModel.Sim
 open CimbaModel CimbaModel.KPQ CimbaModel.HashHeap
